@@ -26,22 +26,26 @@ package document
 // are shared with the source on purpose (they are not modified after creation - see the comments in
 // numbering.go / footnotes.go); that they are never written later is NOT part of these contracts.
 //@ func (*NumberingManager).clone
-//@ props C17
+//@ props C17, C15, C13
 //@ modifies nothing
 //@ ensures m == nil ==> result == nil
 //@ ensures m != nil ==> fresh(result) && result.abstractNums != nil && fresh(result.abstractNums) && result.numInstances != nil && fresh(result.numInstances)
 //@ ensures m != nil ==> result.nextAbstractNumID == m.nextAbstractNumID && result.nextNumID == m.nextNumID
-//@ ensures m != nil ==> forall k string :: (has(result.abstractNums, k) <==> has(m.abstractNums, k)) && (has(m.abstractNums, k) ==> result.abstractNums[k] == m.abstractNums[k])
+//@ ensures m != nil ==> forall k abstractNumKey :: (has(result.abstractNums, k) <==> has(m.abstractNums, k)) && (has(m.abstractNums, k) ==> result.abstractNums[k] == m.abstractNums[k])
 //@ ensures m != nil ==> forall k string :: (has(result.numInstances, k) <==> has(m.numInstances, k)) && (has(m.numInstances, k) ==> result.numInstances[k] == m.numInstances[k])
+// C15/C13: the copy of a well-formed registry is a well-formed registry (zz_contracts_verif_num.go), so list calls on a cloned
+// document are covered by the list contracts; those never write an existing definition or instance object (their frames),
+// which is what makes sharing the objects with the source sound.
+//@ ensures m != nil && numRegOK(m) ==> numRegOK(result)
 //@ loop 1
 //@   invariant unchangedHeap() && c != nil && fresh(c) && c.abstractNums != nil && fresh(c.abstractNums) && c.numInstances != nil && fresh(c.numInstances) && c.abstractNums != c.numInstances
 //@   invariant c.nextAbstractNumID == m.nextAbstractNumID && c.nextNumID == m.nextNumID
-//@   invariant forall k string :: (has(c.abstractNums, k) <==> seen(k)) && (seen(k) ==> has(m.abstractNums, k) && c.abstractNums[k] == m.abstractNums[k])
+//@   invariant forall k abstractNumKey :: (has(c.abstractNums, k) <==> seen(k)) && (seen(k) ==> has(m.abstractNums, k) && c.abstractNums[k] == m.abstractNums[k])
 //@   invariant forall k string :: !has(c.numInstances, k)
 //@ loop 2
 //@   invariant unchangedHeap() && c != nil && fresh(c) && c.abstractNums != nil && fresh(c.abstractNums) && c.numInstances != nil && fresh(c.numInstances) && c.abstractNums != c.numInstances
 //@   invariant c.nextAbstractNumID == m.nextAbstractNumID && c.nextNumID == m.nextNumID
-//@   invariant forall k string :: (has(c.abstractNums, k) <==> has(m.abstractNums, k)) && (has(m.abstractNums, k) ==> c.abstractNums[k] == m.abstractNums[k])
+//@   invariant forall k abstractNumKey :: (has(c.abstractNums, k) <==> has(m.abstractNums, k)) && (has(m.abstractNums, k) ==> c.abstractNums[k] == m.abstractNums[k])
 //@   invariant forall k string :: (has(c.numInstances, k) <==> seen(k)) && (seen(k) ==> has(m.numInstances, k) && c.numInstances[k] == m.numInstances[k])
 
 //@ func (*FootnoteManager).clone
@@ -120,6 +124,7 @@ package document
 //@ ensures result.relationships != nil && fresh(result.relationships) && freshArr(result.relationships.Relationships)
 //@ ensures result.styleManager != nil && fresh(result.styleManager) && (result.numberingManager == nil || fresh(result.numberingManager)) && (result.footnoteManager == nil || fresh(result.footnoteManager))
 //@ ensures result.nextImageID == source.nextImageID
+//@ ensures old(numDocOK(source)) ==> numDocOK(result)   // the clone's numbering registry is well formed if the source's is (C13/C15 list contracts apply to it)
 //@ ensures len(result.Body.Elements) == len(source.Body.Elements)
 //@ ensures forall j int :: 0 <= j && j < len(source.Body.Elements) && old(isKnownKind(source.Body.Elements[j])) ==> sameKind(result.Body.Elements[j], old(source.Body.Elements[j])) && fresh(result.Body.Elements[j])
 //@ ensures forall j int :: 0 <= j && j < len(result.Body.Elements) && isPara(result.Body.Elements[j]) ==> !isElem(result.Body.Elements[j].(*Paragraph))
